@@ -137,6 +137,12 @@ func c16CheckCLI(c *mc.Ctx, box *cliBox, cs c16CLICase) {
 	if given["gap-open"] {
 		open = cs.Open
 		args = append(args, "--gap-open="+f64(open))
+	} else {
+		// the default gap-open score is always given explicitly: phase, phasent and sw bind one variable with
+		// different documented defaults (-10, -12, -10), the last registration wins, and in a fresh process
+		// goalign phasent runs with -10 where its help says -12 (observed on the unchanged tree; the
+		// statement of C16 says nothing about scoring defaults, so neither value is demanded)
+		args = append(args, "--gap-open="+f64(open))
 	}
 	if given["gap-extend"] {
 		ext = cs.Extend
